@@ -7,13 +7,18 @@
   "every character keeps its formatting" clauses at once (C06_text / C06_len make that explicit).
   Python's own slicing/indexing/repeat/join semantics are the independent definitions in Spec/PySlice.lean.
 
-  Hypotheses: none beyond the types. A slice step is rejected (C06_step). Plain-`str` operands of `+`
-  are not parsed by the library (`Chunk(other)`); for `join`, str items go through `fmtstr`, which is the
-  identity wrapping for ESC-free text (C17_plain) - the model's `join` takes the converted items.
+  Hypotheses: none beyond the types, except for plain-`str` ITEMS OF JOIN: `+` wraps a str operand with
+  `Chunk(other)` (no parsing, `C06_add_str`/`C06_radd_str` hold for every text), but `join` converts str items
+  with `fmtstr(s)`, which parses escape sequences. For str items free of `ESC[` the conversion is the
+  identity wrapping (`C17_plain`) and `C06_join_items_partial` gives the property; for a str item containing
+  `ESC[` the property is FALSE of the code (open finding D27): `C06_join_items_full_statement` is kept visible
+  and refuted by `C06_D27_witness`.  A slice step is rejected (`C06_step`, outside the statement).
 -/
 import Curtsies.Model.FmtStr
+import Curtsies.Model.Operand
 import Curtsies.Spec.PySlice
 import Curtsies.Proofs.Slice
+import Curtsies.Properties.C17
 namespace Curtsies
 open Spec
 
@@ -152,6 +157,75 @@ theorem C06_join (sep : FmtStr) (items : List FmtStr) :
       have := ih y
       simp only [List.map_cons, cells_append] at this
       simp only [joinLoop, cells_append, List.map_cons, pyJoin, this, List.append_assoc]
+
+/-- `n * f` (reflected repetition, `__rmul__ = __mul__`) -/
+theorem C06_rmul (f : FmtStr) (n : Int) : cells (rmul n f) = pyRepeat (cells f) n := C06_mul f n
+
+private theorem toFmt_escfree (md : Nat) (o : Operand) (h : o.EscFree) :
+    ∃ g, o.toFmt md = .ok g ∧ cells g = o.cells := by
+  cases o with
+  | fmt f => exact ⟨f, rfl, rfl⟩
+  | str t =>
+    refine ⟨[⟨t, {}⟩], ?_, ?_⟩
+    · simp only [Operand.toFmt, C17_plain md t h, Except.map, copyWithNewAtts_empty]
+    · simp [Operand.cells, plainCells, Chunk.cells]
+
+private theorem mapM_toFmt (md : Nat) (items : List Operand) (h : ∀ o ∈ items, o.EscFree) :
+    ∃ gs, items.mapM (Operand.toFmt md) = .ok gs ∧ gs.map cells = items.map Operand.cells := by
+  induction items with
+  | nil => exact ⟨[], rfl, rfl⟩
+  | cons o os ih =>
+    obtain ⟨g, hg, hc⟩ := toFmt_escfree md o (h o (by simp))
+    obtain ⟨gs, hgs, hcs⟩ := ih (fun x hx => h x (by simp [hx]))
+    refine ⟨g :: gs, ?_, by simp [hc, hcs]⟩
+    simp [List.mapM_cons, hg, hgs, bind, Except.bind, pure, Except.pure]
+
+/-- The full statement for join with str items: every str item's characters come out verbatim and
+    unformatted.  FALSE of the code for str items containing `ESC[` (finding D27). -/
+def C06_join_items_full_statement : Prop :=
+  ∀ (md : Nat) (sep : FmtStr) (items : List Operand),
+    ∃ r, joinItems md sep items = .ok r ∧ cells r = pyJoin (cells sep) (items.map Operand.cells)
+
+/-- join with str / FmtStr items, str items free of `ESC[` (complement of D27's footprint). -/
+theorem C06_join_items_partial (md : Nat) (sep : FmtStr) (items : List Operand) (h : ∀ o ∈ items, o.EscFree) :
+    ∃ r, joinItems md sep items = .ok r ∧ cells r = pyJoin (cells sep) (items.map Operand.cells) := by
+  obtain ⟨gs, hgs, hcs⟩ := mapM_toFmt md items h
+  refine ⟨join sep gs, by simp [joinItems, hgs, Except.map], ?_⟩
+  rw [C06_join, hcs]
+
+private instance c06ExceptDecEq : DecidableEq (Except PyErr FmtStr) := fun a b =>
+  match a, b with
+  | .ok x, .ok y => if h : x = y then isTrue (by rw [h]) else isFalse (fun e => by cases e; exact h rfl)
+  | .error x, .error y => if h : x = y then isTrue (by rw [h]) else isFalse (fun e => by cases e; exact h rfl)
+  | .ok _, .error _ => isFalse (fun e => by cases e)
+  | .error _, .ok _ => isFalse (fun e => by cases e)
+
+/-- D27 on the model: the str item "ESC[31mx" is parsed - one red character instead of six plain ones. -/
+theorem C06_D27_witness :
+    joinItems 4300 [] [.str [ESC, '[', '3', '1', 'm', 'x']] = .ok [⟨['x'], {fg := some 1}⟩] ∧
+    ¬ C06_join_items_full_statement := by
+  have h1 : joinItems 4300 [] [.str [ESC, '[', '3', '1', 'm', 'x']] = .ok [⟨['x'], {fg := some 1}⟩] := by
+    decide +kernel
+  refine ⟨h1, fun hfull => ?_⟩
+  obtain ⟨r, hr, hc⟩ := hfull 4300 [] [.str [ESC, '[', '3', '1', 'm', 'x']]
+  rw [h1] at hr
+  cases hr
+  revert hc
+  decide
+
+/-- text-level forms: the text of each result is the str operation on the operands' texts -/
+theorem C06_add_text (f g : FmtStr) : text (add f g) = text f ++ text g := by
+  simp [text_eq_cells, C06_add]
+theorem C06_add_str_text (f : FmtStr) (t : Text) : text (addStr f t) = text f ++ t := by
+  simp [text_eq_cells, C06_add_str, plainCells, List.map_map, Function.comp_def]
+theorem C06_radd_str_text (f : FmtStr) (t : Text) : text (raddStr f t) = t ++ text f := by
+  simp [text_eq_cells, C06_radd_str, plainCells, List.map_map, Function.comp_def]
+theorem C06_mul_text (f : FmtStr) (n : Int) : text (mul f n) = pyRepeat (text f) n := by
+  rw [text_eq_cells, C06_mul, text_eq_cells]
+  simp only [pyRepeat]
+  induction n.toNat with
+  | zero => simp
+  | succ k ih => simp [List.replicate_succ, ih]
 
 /-- The text of any FmtStr is the first components of its cells: a result whose cells are the str-operation
     of the operands' cells has the text the str-operation gives on the operands' texts. -/
